@@ -869,7 +869,8 @@ class TermCanvas(Canvas):
 
                 self.push_char(char, x, y)
 
-                self.is_rotten_cursor = False
+                # on a one-column screen the character just written already sits in the last column
+                self.is_rotten_cursor = x >= self.width
         else:
             if x + 1 < self.width:
                 x += 1
